@@ -92,12 +92,12 @@ EXTRA = {
  "C06": " Non-UTF-8 and comment-only rules files, same base names in a directory each, rule names defined twice with mismatching expectations; evaluation errors by construction (11 shapes: inside when blocks, query blocks, filters, rule conditions, referenced and parameterised rules); 1-2 further test files per rules file walked with -a / -m.",
  "C07": " Stages 'multi-data' and 'duplicate-names'; multi-file cases with equal base names; values with markup and control characters (the JUnit text must consist of XML 1.0 characters; character data and attribute values must unescape). Stage 'entry-points': ten texts whose reading is not obvious decided alike through file, stdin and --payload; several rules texts through --payload in the multi-file stage.",
  "C08": " Stage 'framing' (comments / blank lines around a text do not decide acceptance), stage 'test-specs' (2-3 spec files of 7 kinds x 4 formats), generated self-reference cycles, key filters whose right-hand side is a variable resolving to no / one / several values, huge list indices, float literals that overflow; Terraform-plan-shaped failing clauses; long multi-byte values through 11 output paths of the real binary. Short-form tags on the wrong kind of node. A child that has used 30 CPU seconds or more when the 90 s watchdog fires is a hang (violation); a watchdog hit without that is inconclusive.",
- "C09": " Cause paths: every message listed under a rule belongs to a clause that failed on a FAIL path of that rule, and every such clause with a message is listed (two-way); a nested `Rule` entry (a parameterised call, also from within a parameterised rule) carries the message written at a call of exactly that rule (map taken from the generated program). The truth record must itself satisfy C02's laws.",
+ "C09": " Cause paths: every message listed under a rule belongs to a clause that failed on a FAIL path of that rule, and every such clause with a message is listed (two-way); a nested `Rule` entry (a parameterised call, also from within a parameterised rule) carries the message written at a call of exactly that rule (map taken from the generated program). The truth record must itself satisfy C02's laws. A third of the rules files carry two-line custom messages, which the report must carry unaltered (F66).",
  "C11": " Negatives include tagged scalars in key position, duplicate keys and multi-document streams; full-precision floats (53-bit mantissas over powers of ten) written in several spellings; NUL and other control characters in strings; stage 'number-spellings' (14 spellings x JSON / YAML x every loader incl. test files named .json / .yaml / .JSON / .jsn).",
  "C12": " JUnit: each <testsuite> of a batch equals the one of validating that data file alone (times masked) and the totals are the sums. test: the one-case files as a directory (-a / -m / default x 4 formats) fail iff some file fails alone.",
  "C10": " A fifth of the documents hold a list of 11-130 entries (multi-digit indices in the pointers); a fifth carry a map with two spellings of one key below a key reached through case conversion (the path oracle takes the key as written first; rule-level idiom clauses are judged against the root context only).",
  "C13": " Universe includes i64::MAX-1 and the neighbours of 2^53; brace quantifiers in the regex generator and matcher; ranges and patterns as members of `in` lists; floats closer to one another than f64::EPSILON.",
- "C14": " Comments and line breaks also after `[` / `name |` and before `]` of filters, key filters and key captures, comment lines between filter clauses; blanks and line breaks before commas, after `[` and before `]` of lists; block lets, variable-only blocks, documents without resources.",
+ "C14": " Comments and line breaks also after `[` / `name |` and before `]` of filters, key filters and key captures, comment lines between filter clauses; blanks and line breaks before commas, after `[` and before `]` of lists; block lets, variable-only blocks, documents without resources. A third of the programs carry the key-capture idiom; the layout between a capture's name and its `|` varies (blank, none, line break - F67).",
  "C15": " Literals in the condition of an inner `when` block abstracted to rule / file level, optionally with a `let` of the same name inside the guarded block; stage 'mixed-projections'; a list of two key names interpolated vs the clause written once per key; stage 'block-chains' (blocks over 2-4 values, clause through 1-3 block-level variables defined from one another); shadowing definitions that are function calls.",
  "C16": " Library statuses are cross-checked against `validate --payload --structured`; CloudFormation-shaped inputs with the key-capture idiom; a third of the programs have an implicit default rule with expectations under the name the test command gives it; --dir runs with a second guard file whose stem continues the first one's.",
  "C17": " Stage 'raw-scalars' (26 spellings on which YAML versions disagree, in a parameter file and in the data, vs the concatenated text); rules that walk the merged root as a whole; two data files per structured run; the last parameter file as a symbolic link; structured YAML / JUnit / SARIF modes.",
